@@ -227,7 +227,7 @@ def pipeline_body(ctx: Ctx, p: dict) -> None:
     first_checked = first_margins = first_trace = first_left = first_right = None
     n_ok = 0
     checked = None
-    sub_used = False
+    sub_used = mirrored = False
     for op in p["ops"]:
         if op in ("check_perm", "check_sub"):
             i_d = kinds.index("disparity")
@@ -313,6 +313,17 @@ def pipeline_body(ctx: Ctx, p: dict) -> None:
                 ctx.violation("C01/plugin-step-call-count", f"{tag}: {len(stubs.CALLS)} calls, expected {exp_calls}")
             if first_trace is None:
                 first_trace, first_left, first_right = trace, lo.copy(deep=True), ro.copy(deep=True)
+                if has_val and "disparity_map" in ro:
+                    # "symmetrically on the right data": the right products are the left products of the exchanged pair
+                    a_, b_ = p["disp"]
+                    stubs.CALLS.clear()
+                    mir = drive.run_pipeline(kw["right"], kw["left"], gen.pipe_dict(steps), (-b_, -a_),
+                                             msk_left=kw["msk_right"], msk_right=kw["msk_left"])
+                    for v in ("disparity_map", "validity_mask", "confidence_measure"):
+                        if v in ro and not np.array_equal(ro[v].data, mir.left[v].data, equal_nan=True):
+                            ctx.violation("C01/right-data-not-symmetric", f"{tag}: right {v} differs from the left {v} of the "
+                                                                          f"exchanged pair at {int((~np.isclose(ro[v].data, mir.left[v].data, equal_nan=True)).sum())} elements")
+                    mirrored = True
             else:
                 if trace != first_trace:
                     ctx.violation("C01/second-run-trace-differs", tag)
@@ -363,6 +374,8 @@ def pipeline_body(ctx: Ctx, p: dict) -> None:
         classes.append("re-ordered-on-used-machine")
     if sub_used:
         classes.append("shorter-pipeline-on-used-machine")
+    if mirrored:
+        classes.append("right-vs-exchanged-pair" + ("-multiscale" if ns > 1 else ""))
     ctx.case(p, nontrivial=bool(len(names) >= 3 and n_ok >= 2), classes=classes)
 
 
